@@ -2,7 +2,7 @@
    All arithmetic is the i32 arithmetic of the code on Z (no intermediate leaves the i32 range: proved where
    used); `>>` on negative values is the arithmetic shift (floor).  The bit layout of the ten two-region modes
    is regenerated from the consume! sequences of the source (gen/GenBC6.v); partitions from gen/GenBC.v. *)
-From DDSV Require Import base.Machine model.BC7 gen.GenBC gen.GenBC6.
+From DDSV Require Import base.Machine model.BC7 gen.GenBC gen.GenBC6 spec.SpecBC7Tables spec.SpecBC6Tables.
 Local Open Scope Z_scope.
 
 Definition ztake (n : Z) (s : Z) : Z * Z := (s mod 2 ^ n, s / 2 ^ n).
@@ -34,7 +34,7 @@ Definition palette (signed : bool) (ws : list Z) (a b : list Z) (bits : Z) : lis
 Definition zero_block : list (list Z) := repeat [0; 0; 0] 16.
 
 (* one-region modes: code 0..3 = 10_10, 11_9, 12_8, 16_4 *)
-Definition decode_one (signed : bool) (code : Z) (s0 : Z) : list (list Z) :=
+Definition decode_one (indices : N -> list N -> N -> list N * N) (signed : bool) (code : Z) (s0 : Z) : list (list Z) :=
   let a0 := nth (Z.to_nat code) [10; 11; 12; 16] 10 in let b0 := 20 - a0 in let ext := a0 - 10 in
   let ar := ztake 10 s0 in let ag := ztake 10 (snd ar) in let ab := ztake 10 (snd ag) in
   let br := ztake b0 (snd ab) in let er := ztake_rev ext (snd br) in
@@ -42,7 +42,7 @@ Definition decode_one (signed : bool) (code : Z) (s0 : Z) : list (list Z) :=
   let bb := ztake b0 (snd eg) in let eb := ztake_rev ext (snd bb) in
   let a := [fst ar + fst er * 1024; fst ag + fst eg * 1024; fst ab + fst eb * 1024] in
   let b := [fst br; fst bg; fst bb] in
-  let idx := fst (impl_indices 4 [0%N] (Z.to_N (snd eb))) in
+  let idx := fst (indices 4%N [0%N] (Z.to_N (snd eb))) in
   let transformed := negb (code =? 0) in
   let a' := if signed then map (fun c => sign_extend c a0) a else a in
   let b1 := if transformed || signed then map (fun c => sign_extend c b0) b else b in
@@ -63,7 +63,7 @@ Fixpoint read_fields (fs : list (N * N * N * N)) (s : Z) (acc : N -> N -> Z) : (
       let v := ztake (Z.of_N n) s in
       read_fields fs' (snd v) (fun e c => if (e =? ep)%N && (c =? ch)%N then acc e c + fst v * 2 ^ Z.of_N sh else acc e c)
   end.
-Definition decode_two (signed : bool) (fields_table : list (N * list (N * N * N * N))) (p2 : list (list N * list N)) (code : Z) (s0 : Z) : list (list Z) :=
+Definition decode_two (indices : N -> list N -> N -> list N * N) (signed : bool) (fields_table : list (N * list (N * N * N * N))) (p2 : list (list N * list N)) (code : Z) (s0 : Z) : list (list Z) :=
   match find (fun r => (fst r =? Z.to_N code)%N) fields_table with
   | None => zero_block
   | Some row =>
@@ -72,7 +72,7 @@ Definition decode_two (signed : bool) (fields_table : list (N * list (N * N * N 
     let comp := fun e => [fst rf e 0%N; fst rf e 1%N; fst rf e 2%N] in
     let part := ztake 5 (snd rf) in
     let prow := nth (Z.to_nat (fst part)) p2 ([], []) in
-    let idx := fst (impl_indices 3 (0%N :: snd prow) (Z.to_N (snd part))) in
+    let idx := fst (indices 3%N (0%N :: snd prow) (Z.to_N (snd part))) in
     let transformed := negb (code =? 30) in
     let se3 := fun l => match l with [r; g; b] => [sign_extend r dr; sign_extend g dg; sign_extend b db] | _ => l end in
     let w := if signed then map (fun c => sign_extend c a0) (comp 0%N) else comp 0%N in
@@ -84,13 +84,16 @@ Definition decode_two (signed : bool) (fields_table : list (N * list (N * N * N 
     map (fun i => nth (N.to_nat (nth i idx 0%N)) (if (nth i (fst prow) 0 =? 0)%N then pal0 else pal1) [0; 0; 0]) (seq 0 16)
   end.
 
-Definition bc6_decode_with (fields_table : list (N * list (N * N * N * N))) (p2 : list (list N * list N)) (signed : bool) (block : list N) : list (list Z) :=
+Definition bc6_decode_with (indices : N -> list N -> N -> list N * N) (fields_table : list (N * list (N * N * N * N))) (p2 : list (list N * list N)) (signed : bool) (block : list N) : list (list Z) :=
   let s := Z.of_N (le128 block) in
   let low2 := s mod 4 in
-  if low2 =? 0 then decode_two signed fields_table p2 0 (s / 4)
-  else if low2 =? 1 then decode_two signed fields_table p2 1 (s / 4)
+  if low2 =? 0 then decode_two indices signed fields_table p2 0 (s / 4)
+  else if low2 =? 1 then decode_two indices signed fields_table p2 1 (s / 4)
   else let high3 := (s / 4) mod 8 in
-       if low2 =? 2 then decode_two signed fields_table p2 (high3 * 4 + 2) (s / 32)
+       if low2 =? 2 then decode_two indices signed fields_table p2 (high3 * 4 + 2) (s / 32)
        else if 4 <=? high3 then zero_block       (* reserved modes 10011, 10111, 11011, 11111 *)
-       else decode_one signed (high3 mod 4) (s / 32).
-Definition bc6_model : bool -> list N -> list (list Z) := bc6_decode_with bc6_two_fields partition2.
+       else decode_one indices signed (high3 mod 4) (s / 32).
+Definition bc6_model : bool -> list N -> list (list Z) := bc6_decode_with impl_indices bc6_two_fields partition2.
+(* the same decoder over the specification's frozen tables and the sequential index reader of the BC7 specification model *)
+Definition bc6_spec : bool -> list N -> list (list Z) := bc6_decode_with spec_indices spec_bc6_two_fields spec_partition2.
+
